@@ -273,7 +273,7 @@ def run(ctx: core.Ctx):
     n_mirror = 0
     for i in range(n_hist):
         p, info = G.gen_program(rnd, rnd.randint(2, 6), "P", actions=rnd.choice([1, 2]))
-        hm = G.mirror_history(rnd, p) if i % 3 == 0 else None
+        hm = G.mirror_history(rnd, p) if n_mirror < 8 else None
         if hm:
             # other work of the same shape over the same source frames with the alias names permuted
             p = G.creates_first(p)
